@@ -474,6 +474,8 @@ def run(R):
                     for op, mode, bulk in (("multiwalk", "strict", None), ("multiwalk", "warn", None), ("bulkwalk", "strict", 1), ("bulkwalk", "strict", 2)):
                         run_op(R, fdesc, table_f(mapping), op, mode, bulk, roots=(first, second))
                         R.mon["two_root_eomv_first_families"] += 1
+    if R.shard == 1 % R.nshards:
+        error_and_cut_families(R)
     complete = True
     sizes = (2, 3) if R.tier == "quick" else (2, 3, 4)
     for k in sizes:
@@ -502,9 +504,139 @@ def run(R):
     sampled(R, 400 if R.tier == "quick" else 20000)
 
 
+class ErrAgent:
+    """A conformant v1/v2c agent over a small sorted instance list that answers every
+    request naming ``err_oid`` with an error-status (persistently, as a real agent at
+    the end of its view or with a broken object does), and may cut ONE GETBULK
+    response below a full row."""
+
+    def __init__(self, version, instances, err_oid=None, status=2, index=0, echo=True, cut=None):
+        self.version, self.inst = version, sorted(instances)
+        self.err_oid, self.status, self.index, self.echo, self.cut = err_oid, status, index, echo, cut
+        self.requests = []
+        self.bulk_responses = 0
+
+    def nxt(self, oid):
+        return next((k for k in self.inst if k > oid), None)
+
+    def handle(self, data):
+        msg = ber.decode_message(data)
+        pdu = msg["pdu"]
+        req = [tuple(o) for o, _ in pdu["varbinds"]]
+        self.requests.append(tuple(req))
+
+        def answer(status, index, vbs):
+            return ber.enc_community_message(self.version, msg["community"], {"type": ber.PDU_RESPONSE, "request_id": pdu["request_id"], "error_status": status, "error_index": index, "varbinds": vbs})
+
+        if self.err_oid is not None and self.err_oid in req:
+            return answer(self.status, self.index, [(o, ("null", None)) for o in req] if self.echo else [])
+        if pdu["type"] == ber.PDU_GETNEXT:
+            out = []
+            for i, o in enumerate(req):
+                n = self.nxt(o)
+                if n is None:
+                    if self.version == 0:
+                        return answer(2, i + 1, [(x, ("null", None)) for x in req])
+                    out.append((o, ("eomv", None)))
+                else:
+                    out.append((n, ("int", 1)))
+            return answer(0, 0, out)
+        if pdu["type"] == ber.PDU_GETBULK:
+            cur, out = list(req), []
+            for _ in range(max(pdu["error_index"], 0)):
+                for j in range(len(cur)):
+                    n = self.nxt(cur[j])
+                    if n is None:
+                        out.append((cur[j], ("eomv", None)))
+                    else:
+                        out.append((n, ("int", 1)))
+                        cur[j] = n
+            self.bulk_responses += 1
+            if self.cut and self.bulk_responses == self.cut[0]:
+                out = out[: self.cut[1]]
+            return answer(0, 0, out)
+        return None
+
+
+def error_and_cut_families(R):
+    """Walks against an agent that answers one OID with an error-status for ever, or cuts
+    one GETBULK answer below a row: whatever the outcome (the error raised, a normal end),
+    the operation ENDS within the request bound and never repeats a request."""
+    from puresnmp.credentials import V1
+
+    a = [ROOT + (1, i) for i in (1, 2, 3)]
+    b = [ROOT2 + (1, i) for i in (1, 2)]
+    inst = a + b + [AFTER + (9,)]
+    for version, cred in ((0, V1("public")), (1, V2C("public"))):
+        for err_oid in (ROOT, a[0], a[2], b[1], inst[-1]):
+            for status, index, echo in ((2, 0, True), (2, 1, True), (2, 5, True), (2, 0, False), (5, 0, True), (5, 1, True), (1, 0, False), (13, 2, True), (19, 0, True)):
+                for op, mode, bulk, roots in (("walk", "strict", None, (ROOT,)), ("walk", "warn", None, (ROOT,)), ("multiwalk", "strict", None, (ROOT, ROOT2)), ("multiwalk", "warn", None, (ROOT2, ROOT)),
+                                              ("bulkwalk", "strict", 2, (ROOT, ROOT2)), ("table", "strict", None, (ROOT,)), ("bulktable", "strict", 3, (ROOT,))):
+                    if version == 0 and op in ("bulkwalk", "bulktable"):
+                        continue
+                    run_err_op(R, version, cred, inst, dict(err_oid=err_oid, status=status, index=index, echo=echo), op, mode, bulk, roots)
+    # one GETBULK answer cut below a full row, every later one complete
+    for nresp in (1, 2, 3):
+        for keep in (0, 1, 2):
+            for bulk in (1, 2, 3):
+                for roots in ((ROOT, ROOT2), (ROOT2, ROOT), (ROOT, ROOT2, AFTER)):
+                    run_err_op(R, 1, V2C("public"), inst, dict(cut=(nresp, keep)), "bulkwalk", "strict", bulk, roots)
+
+
+def run_err_op(R, version, cred, inst, akw, op, mode, bulk, roots):
+    agent = ErrAgent(version, inst, **akw)
+    seam = Seam(agent.handle)
+    client = Client("192.0.2.1", cred, sender=seam)
+    bound = 2 * (len(inst) + len(roots)) + 4
+
+    def budgeted(data):
+        if seam.calls > bound:
+            raise rig.BudgetExceeded(seam.calls)
+        return agent.handle(data)
+
+    seam.responder = budgeted
+    errs = rig.lenient() if mode == "warn" else "".join(("str", "ict"))
+    try:
+        if op == "walk":
+            res = ("ok", drive_agen(client.walk(OID(roots[0]), errors=errs), limit=100))
+        elif op == "multiwalk":
+            res = ("ok", drive_agen(client.multiwalk([OID(r) for r in roots], errors=errs), limit=100))
+        elif op == "bulkwalk":
+            res = ("ok", drive_agen(client.bulkwalk([OID(r) for r in roots], bulk_size=bulk), limit=100))
+        elif op == "table":
+            res = ("ok", drive(client.table(OID(roots[0] + (1,)))))
+        else:
+            res = ("ok", drive(client.bulktable(OID(roots[0]), bulk_size=bulk)))
+    except rig.BudgetExceeded:
+        res = ("budget", None)
+    except Exception as exc:  # noqa: BLE001
+        res = ("exc", exc)
+    case = {"f": {"kind": "err-agent", "version": version, "akw": rig.jsonable(akw)}, "op": op, "mode": mode, "bulk": bulk, "roots": [list(r) for r in roots]}
+    R.case(("c03-err", version, op, mode, bulk, tuple(agent.requests)), len(agent.requests) >= 1)
+    R.mon["error_and_cut_ops_run"] += 1
+    if res[0] == "budget":
+        R.violation(case, "more than %d requests against an agent holding %d instances (%s): the operation does not end" % (bound, len(inst), "answering %r with error-status %d for ever" % (akw.get("err_oid"), akw.get("status")) if "err_oid" in akw else "one GETBULK answer cut to %d bindings" % akw["cut"][1]), None)
+        return
+    if "err_oid" in akw:
+        # a request that was answered with an error-status must not be sent again
+        errreqs = [r for r in agent.requests if akw["err_oid"] in r]
+        if len(errreqs) != len(set(errreqs)):
+            R.violation(case, "the request answered with error-status %d was sent again: %r" % (akw["status"], errreqs[:3]), None)
+            return
+    R.mon["error_and_cut_ops_ended"] += 1
+
+
 def replay(R, v):
     c = v["case"]
     fd = c["f"]
+    if fd["kind"] == "err-agent":
+        from puresnmp.credentials import V1
+
+        a = [ROOT + (1, i) for i in (1, 2, 3)]
+        inst = a + [ROOT2 + (1, i) for i in (1, 2)] + [AFTER + (9,)]
+        akw = {k: (tuple(x) if isinstance(x, list) else x) for k, x in fd["akw"].items()}
+        run_err_op(R, fd["version"], V1("public") if fd["version"] == 0 else V2C("public"), inst, akw, c["op"], c["mode"], c["bulk"], tuple(tuple(r) for r in c["roots"]))
+        return
     if fd["kind"] in ("table", "named"):
         mapping = {tuple(k): (tuple(val) if val else None) for k, val in fd["map"]}
         state = []
